@@ -3,9 +3,7 @@ import struct
 from ..chain import *
 from .. import gen, core, run
 
-THEOREMS = ['C01_compactsize_roundtrip', 'C01_tx_roundtrip', 'C01_txid_is_stripped_hash', 'C01_block_roundtrip', 'C01_block_hash_is_header_hash',
-            'C01_one_row_per_item', 'C01_rows_in_chain_order', 'C01_totals_equal_rows', 'C01_row_fields_recoverable', 'C01_hex_invertible',
-            'C01_hex_lowercase', 'C01_hex_length', 'C01_decimal_invertible', 'C01_hex_field_clean', 'C01_decimal_field_clean']
+THEOREMS = core.pinned('C01')
 
 U32 = [0, 1, 2**31, 2**32 - 1]
 U64 = [0, 1, 2**63, 2**64 - 1]
